@@ -226,8 +226,30 @@ def install_wall_clock(clock):
     _dt.datetime = _WallClock
 
 
+def install_process_clocks(clock):
+    """time.time() / time.perf_counter() of the whole process (stages other than the orchestrator read them directly,
+    e.g. the duration that apply_changes measures): every reading jumps ahead.  time.monotonic is left alone (the
+    standard library's own waits use it)."""
+    if clock == "zero":
+        return
+    import time as _t
+    real_time, real_pc = _t.time, _t.perf_counter
+    rc = random.Random(f"pclock|{clock}")
+    st = {"t": 0.0, "p": 0.0}
+
+    def fake_time():
+        st["t"] += 2.5 if clock == "huge" else rc.choice([0.0, 0.004, 1.2])
+        return real_time() + st["t"]
+
+    def fake_perf_counter():
+        st["p"] += 1.0 if clock == "huge" else rc.choice([0.0, 1e-6, 0.013, 2.5])
+        return real_pc() * (1000.0 if clock == "huge" else 1.0) + st["p"]
+    _t.time, _t.perf_counter = fake_time, fake_perf_counter
+
+
 def main():
     install_wall_clock(sys.argv[3])
+    install_process_clocks(sys.argv[3])
     case = json.load(open(sys.argv[1]))
     outdir = sys.argv[2]
     clock = sys.argv[3]
